@@ -545,6 +545,18 @@ def run(ck):
     # 0..4 (R04.1; a level that accumulates over re-addressing indexes past the 6-byte suffix table inside update())
     from . import c04
     c04.begin_structure(ck, agg, net.NetNode(ck, "rf24_network", "RF24Network"))
+    # "... or make it forward garbage": after a failed forward the dead frame is flushed by the next send() because MAX_RT is still
+    # latched - no setter the network layer calls in between (listen) may clear it (R03.8, shared with C03)
+    from . import c03
+    from .radio import Radio
+    from ..tables import contract as _ct
+    c03.run_setters(Radio(ck), agg, _ct.SETTERS)
+    from . import c08
+    c08.events_kept(Radio(ck), agg)
+    # the master answers an address request once: no request stays pending, or a later frame of any kind (also a discarded one sitting in
+    # frame_buf) is served as if it were the request (R16.6, shared with C16)
+    from . import c16
+    c16.dispatch(ck, agg, c16.master(ck))
     agg.flush()
     ck.floor("R15.8", "re-transmission scenarios by message length", n5, 30)
     ck.floor("R15.1", "update() analyses", n1, 12)
